@@ -146,6 +146,81 @@ class LineInjector:
         sys.settrace(None)
 
 
+class PointInjector:
+    """fires `fn` once, at the k-th *interruption point* inside the library.
+
+    CPython runs signal handlers only where the interpreter checks for them: on entry to a Python function and when a C-level call
+    returns (also on loop back-edges, which lie between two such points here).  A KeyboardInterrupt from a real SIGINT can therefore
+    surface only there, never between two arbitrary lines.  The points are reproduced exactly:
+      * entry of every function defined in curtsies/input.py and curtsies/termhelpers.py ('call' trace event: the exception appears at the
+        callee's first instruction and propagates to the caller's CALL / BEFORE_WITH, as the real one does);
+      * return of every call the two modules make through their module-level names os, select, signal, fcntl, termios, tty, time (a
+        proxy performs the real call, then fires: the exception appears at the caller's CALL instruction with the call's effect done,
+        which is what a signal arriving during the system call gives).
+    A call that raises is not a point (the interpreter does not check for signals on the error path)."""
+
+    MODS = ("os", "select", "signal", "fcntl", "termios", "tty", "time")
+    FILES = (os.path.join("curtsies", "input.py"), os.path.join("curtsies", "termhelpers.py"))
+
+    def __init__(self, k, fn):
+        self.k, self.fn, self.count, self.fired = k, fn, 0, False
+        self.where = None
+        self.saved = []
+
+    def _tick(self, what):
+        if self.fired:
+            return
+        self.count += 1
+        if self.count == self.k:
+            self.fired = True
+            self.where = what
+            sys.settrace(None)
+            self.fn()
+
+    def _global(self, frame, event, arg):
+        if event == "call" and not self.fired and frame.f_code.co_filename.endswith(self.FILES) and not frame.f_code.co_name.startswith("<"):
+            # (generator expressions / comprehensions resume once per item: the same point over and over, not counted)
+            self._tick("enter " + frame.f_code.co_name)
+        return None
+
+    def _proxy(self, target, modname):
+        inj = self
+
+        class _P:
+            def __getattr__(self, name):
+                v = getattr(target, name)
+                if isinstance(v, type) or not callable(v):
+                    return v
+
+                def after(*a, **kw):
+                    r = v(*a, **kw)
+                    inj._tick("after %s.%s" % (modname, name))
+                    return r
+
+                return after
+
+        return _P()
+
+    def __enter__(self):
+        import curtsies.input as ci
+        import curtsies.termhelpers as th
+
+        for mod in (ci, th):
+            for name in self.MODS:
+                if name in vars(mod):
+                    cur = vars(mod)[name]
+                    self.saved.append((mod, name, cur))
+                    setattr(mod, name, self._proxy(cur, name))
+        sys.settrace(self._global)
+        return self
+
+    def __exit__(self, *a):
+        sys.settrace(None)
+        for mod, name, cur in self.saved:
+            setattr(mod, name, cur)
+        self.saved = []
+
+
 class PipeStream:
     """in_stream backed by a pipe (64 KiB capacity): Input is used without entering its context"""
 
